@@ -325,6 +325,7 @@ func c19runScenario(w *report.W, sc c19scenario, bound int, maxPoints int) {
 	}
 	g0 := c19globals()
 	outcomes := map[string]int{}
+	orders := map[string]bool{}
 	maxPts := 0
 	ex := &explore.Explorer{Bound: bound, MaxExec: 400000}
 	ex.Run = func(x *explore.X) bool {
@@ -344,7 +345,10 @@ func c19runScenario(w *report.W, sc c19scenario, bound int, maxPoints int) {
 				return false
 			}
 		}
-		outcomes[fmt.Sprint(s.Trace)]++
+		outcomes[strings.Join(res, "\x00")]++ // distinct result vectors (1 = every schedule gave the solo results)
+		if len(orders) < 100000 {
+			orders[fmt.Sprint(s.Trace)] = true
+		}
 		if g1 := c19globals(); g1 != g0 {
 			w.Violate(report.Violation{Kind: "global-state-modified:schedule", Case: sc.name, Detail: c19diffLine(g0, g1), Size: 3})
 			return false
@@ -354,11 +358,13 @@ func c19runScenario(w *report.W, sc c19scenario, bound int, maxPoints int) {
 	ex.Explore()
 	w.P.Evaluations += ex.Stats.Executions
 	w.P.Transitions += ex.Stats.Executions
-	w.P.States += int64(len(outcomes))
-	w.P.Nontrivial += int64(len(outcomes))
-	w.P.Bounds["sched:"+sc.name] = fmt.Sprintf("%d schedules, <=%d preemptions, %d scheduling points per execution (horizon %d), %d distinct thread orders", ex.Stats.Executions, bound, maxPts, maxPoints, len(outcomes))
+	w.Count("schedules_explored", ex.Stats.Executions)
+	w.P.Bounds["sched:"+sc.name] = fmt.Sprintf("%d schedules, <=%d preemptions, %d scheduling points per execution (horizon %d), %d distinct result vectors", ex.Stats.Executions, bound, maxPts, maxPoints, len(outcomes))
 	if ex.Stats.Capped || w.Expired() {
 		w.Inexhaustive("scheduler " + sc.name + ": cap/deadline")
+	}
+	if maxPts > maxPoints {
+		w.Inexhaustive(fmt.Sprintf("scheduler %s: %d scheduling points exceed the horizon %d (no preemption offered beyond it)", sc.name, maxPts, maxPoints))
 	}
 }
 
@@ -534,7 +540,7 @@ func c19run(w *report.W) {
 	verifseam.PointHook = sched.Point
 	defer func() { verifseam.PointHook = nil }()
 	bound := 1
-	horizon := 400
+	horizon := 5000
 	if w.Thorough() {
 		bound = 2
 	}
@@ -568,6 +574,8 @@ func c19run(w *report.W) {
 				rep = rep[:3000]
 			}
 			w.Violate(report.Violation{Kind: "data-race", Case: "free-running pass: 16 goroutines sharing one ordered map with tombstones, one parsed+signed pipeline and one key set (read-only use)", Detail: rep, Size: 1})
+		} else if strings.Contains(s, "WRONG RESULTS") {
+			w.Violate(report.Violation{Kind: "concurrent-wrong-results", Case: "free-running pass", Detail: s, Size: 1})
 		} else if err != nil {
 			w.HarnessError("race pass failed: %v\n%s", err, s)
 		} else {
@@ -620,7 +628,7 @@ func init() {
 				}
 				var res []string
 				var s *sched.S
-				explore.Replay(r.Choices, func(x *explore.X) { res, _, s = sched.Run(x.Choose, 400, sc.bodies()) })
+				explore.Replay(r.Choices, func(x *explore.X) { res, _, s = sched.Run(x.Choose, 5000, sc.bodies()) })
 				for i := range res {
 					if res[i] != solo[i] {
 						return fmt.Sprintf("thread %d differs under schedule %v: %s", i, s.Trace, firstDiff(solo[i], res[i])), true
